@@ -897,12 +897,51 @@ def copy_case(arg):
     return out
 
 
+def cross_copy_case(arg):
+    """copy construction across the mesh classes: Target(source) with a source of ANOTHER class is a copy too"""
+    src, dst, n = arg
+    classes = {'mesh': mesh, 'imex_mesh': imex_mesh, 'comp2_mesh': comp2_mesh, 'position': particles.position, 'velocity': particles.velocity, 'acceleration': acceleration}
+    S_, T = classes[src], classes[dst]
+    if src in ('position', 'velocity', 'acceleration'):
+        a = S_(((3, n), None, np.dtype('float64')))
+    elif src == 'mesh':
+        a = S_(((2, n), None, np.dtype('float64')), val=0.0)  # the shape the two-component classes have underneath
+    else:
+        a = S_(((n,), None, np.dtype('float64')), val=0.0)
+    raw = a.view(np.ndarray)
+    raw[...] = np.arange(raw.size, dtype=float).reshape(raw.shape) + 1.5
+    before = raw.copy()
+    sig = {'part': 'copies', 'type': dst, 'how': f'constructor({src})'}
+    try:
+        b = T(a)
+    except Exception as e:  # noqa: BLE001
+        return [({**sig, 'kind': 'copy_raised'}, {'error': f'{type(e).__name__}: {e}'[:160]})]
+    out = []
+    if type(b) is not T:
+        out.append(({**sig, 'kind': 'copy_has_other_type'}, {'observed': type(b).__name__}))
+    braw = b.view(np.ndarray)
+    if braw.shape != before.shape or np.any(braw != before):
+        out.append(({**sig, 'kind': 'copy_values_differ'}, {}))
+        return out
+    shares = bool(np.shares_memory(raw, braw))
+    braw[...] = -3.25
+    if shares or np.any(raw != before):
+        out.append(({**sig, 'kind': 'copy_shares_storage'}, {'shares_memory': shares, 'original_changed_by_writing_into_the_copy': bool(np.any(raw != before))}))
+    return out
+
+
 def run_copies(rep):
+    fam = ('mesh', 'imex_mesh', 'comp2_mesh')
+    pfam = ('position', 'velocity', 'acceleration')
+    cross = [(a, b, n) for fam_ in (fam, pfam) for a in fam_ for b in fam_ if a != b for n in (1, 3)]
+    for arg in cross:
+        for sig, det in cross_copy_case(arg):
+            rep.violation(sig, det, {'part': 'cross_copies', 'arg': list(arg)})
     cases = [(k, n, how) for k in ('mesh', 'imex_mesh', 'comp2_mesh', 'particles', 'fields', 'acceleration') for n in (1, 3) for how in ('constructor', 'copy.deepcopy', 'copy.copy')]
     for arg in cases:
         for sig, det in copy_case(arg):
             rep.violation(sig, det, {'part': 'copies', 'arg': list(arg)})
-    return len(cases)
+    return len(cases) + len(cross)
 
 
 def run_views(rep, tier):
@@ -966,6 +1005,10 @@ def replay(rep, case):
     elif part == 'copies':
         a = case['arg']
         for sig, det in copy_case((a[0], int(a[1]), a[2])):
+            rep.violation(sig, det, case)
+    elif part == 'cross_copies':
+        a = case['arg']
+        for sig, det in cross_copy_case((a[0], a[1], int(a[2]))):
             rep.violation(sig, det, case)
     elif part == 'views':
         a = case['arg']
